@@ -255,7 +255,8 @@ func genC16(r *Rng, tier string) []Case {
 	// numbers: digit strings around the int64 range, leading zeros, signs
 	for _, s := range []string{"9223372036854775807", "9223372036854775808", "-9223372036854775808", "-9223372036854775809",
 		"00000000000000000000000001", "-0", "-", "--1", "+1", "1-", "18446744073709551616", "1.5", "1e3", "0x10", "1_000",
-		"*aGk=\n\n\n\n*", "*aGk=*", "*aGk*", "*aG k=*", "*aGk=\r*", "*a===*", "*aGk==*", "*aG==*", "*aH==*", "*=*", "**", "*", "*a*", "*aGkx*", "*aGkxMg*", "*aGkxMg==*", "*aGkxMg=*", "*-_-_*"} {
+		"*aGk=\n\n\n\n*", "*aGk=*", "*aGk*", "*aG k=*", "*aGk=\r*", "*a===*", "*aGk==*", "*aG==*", "*aH==*", "*=*", "**", "*", "*a*", "*aGkx*", "*aGkxMg*", "*aGkxMg==*", "*aGkxMg=*", "*-_-_*",
+		"*====*", "*==*", "*===*", "*Zm9v====*", "*Zm9v=*", "*Zm9v==*", "*Zg======*", "*Zg===*", "*Zg=*", "*Zg*", "*Zm8=====*", "*Zm8==*", "*Zm8*", "*Zm9vYg==*", "*Zm9vYg======*", "*=Zm9v*", "*Zm=9v*", "*Zm9v*==", "*Zh==*", "*Zm9=*", "*Zm9*"} {
 		add([]byte(s))
 		add([]byte("a;k=" + s))
 	}
